@@ -118,23 +118,26 @@ Proof.
   rewrite E1, E2. cbn [andb]. unfold pd_step. replace (48 + d - 48) with d by lia. reflexivity.
 Qed.
 
+Lemma digits_fuel_S f z acc : digits_fuel (S f) z acc = if z <? 10 then (ch_0 + z) :: acc else digits_fuel f (z / 10) ((ch_0 + z mod 10) :: acc).
+Proof. reflexivity. Qed.
+Lemma consume_f_S f z a : consume_f (S f) z a = if z <? 10 then pd_step a z else pd_step (consume_f f (z / 10) a) (z mod 10).
+Proof. reflexivity. Qed.
+
 Lemma parse_digits_fuel f : forall z acc a, 0 <= z ->
-  parse_digits (digits_fuel f z acc) a = match f with O => parse_digits acc a | S _ => parse_digits acc (consume_f f z a) end.
+  parse_digits (digits_fuel (S f) z acc) a = parse_digits acc (consume_f (S f) z a).
 Proof.
-  induction f as [|f IH]; intros z acc a Hz; [reflexivity|].
-  cbn [digits_fuel consume_f]. destruct (z <? 10) eqn:E.
+  induction f as [|f IH]; intros z acc a Hz; rewrite digits_fuel_S, consume_f_S; destruct (z <? 10) eqn:E.
   - apply Z.ltb_lt in E. apply parse_digits_cons_digit. lia.
-  - apply Z.ltb_ge in E. rewrite IH by (apply Z.div_pos; lia).
-    destruct f as [|f'].
-    + (* out of fuel: excluded by the bound in the round-trip statement; the identity still holds *)
-      simpl. apply parse_digits_cons_digit. apply Z.mod_pos_bound. lia.
-    + apply parse_digits_cons_digit. apply Z.mod_pos_bound. lia.
+  - change (digits_fuel 0 (z / 10) ((ch_0 + z mod 10) :: acc)) with ((ch_0 + z mod 10) :: acc).
+    change (consume_f 0 (z / 10) a) with a. apply parse_digits_cons_digit. apply Z.mod_pos_bound. lia.
+  - apply Z.ltb_lt in E. apply parse_digits_cons_digit. lia.
+  - apply Z.ltb_ge in E. rewrite IH by (apply Z.div_pos; lia). apply parse_digits_cons_digit. apply Z.mod_pos_bound. lia.
 Qed.
 
 Lemma consume_f_value f : forall z, 0 <= z < 10 ^ Z.of_nat f -> z <= 18446744073709551616 -> (0 < f)%nat -> consume_f f z 0 = z.
 Proof.
   induction f as [|f IH]; intros z Hz Hcap Hf; [lia|].
-  cbn [consume_f]. destruct (z <? 10) eqn:E.
+  rewrite consume_f_S. destruct (z <? 10) eqn:E.
   - unfold pd_step. simpl. destruct (18446744073709551616 <? z) eqn:E2; [apply Z.ltb_lt in E2; lia | reflexivity].
   - apply Z.ltb_ge in E. destruct f as [|f'].
     + simpl in Hz. lia.
@@ -147,7 +150,7 @@ Qed.
 
 Lemma digits_fuel_head f : forall z acc, 0 <= z -> exists c rest, digits_fuel (S f) z acc = c :: rest /\ 48 <= c <= 57.
 Proof.
-  induction f as [|f IH]; intros z acc Hz; cbn [digits_fuel]; destruct (z <? 10) eqn:E.
+  induction f as [|f IH]; intros z acc Hz; rewrite digits_fuel_S; destruct (z <? 10) eqn:E.
   - apply Z.ltb_lt in E. exists (ch_0 + z), acc. unfold ch_0. split; [reflexivity | lia].
   - exists (ch_0 + z mod 10), acc. unfold ch_0. pose proof (Z.mod_pos_bound z 10 ltac:(lia)). split; [reflexivity | lia].
   - apply Z.ltb_lt in E. exists (ch_0 + z), acc. unfold ch_0. split; [reflexivity | lia].
@@ -156,8 +159,8 @@ Qed.
 
 Lemma parse_print_nat z : 0 <= z <= 18446744073709551616 -> parse_digits (print_nat_dec z) 0 = Some z.
 Proof.
-  intros Hz. unfold print_nat_dec. rewrite parse_digits_fuel by lia. simpl parse_digits at 1.
-  rewrite consume_f_value; [reflexivity | | lia | lia].
+  intros Hz. unfold print_nat_dec. rewrite (parse_digits_fuel 39) by lia.
+  rewrite (consume_f_value 40); [reflexivity | | lia | lia].
   split; [lia|]. change (Z.of_nat 40) with 40. assert (18446744073709551616 < 10 ^ 40) by (vm_compute; reflexivity). lia.
 Qed.
 
